@@ -12,4 +12,6 @@ import (
 func verifPoint(string) {}
 
 // verifTapBroadcast lets the /verif harness capture ownership announcements; without the tag it never does.
-func verifTapBroadcast(*shardManagerImpl, string, history.ClusterShardID, time.Time) bool { return false }
+func verifTapBroadcast(*shardManagerImpl, string, history.ClusterShardID, time.Time) bool {
+	return false
+}
